@@ -37,12 +37,19 @@ Section Phases.
                             touched restore resync_payload doc_ok dev_apply stamp v_empty d_empty ch_empty).
 
   (** * The invariant *)
+  Definition some {A} (o : option A) : bool := negb (is_none o).
+  Definition is_ph (o : option ph) (p : ph) : bool := bool_decide (o = Some p).
+  Definition imp (a b : bool) : bool := negb a || b.
+
+  (* well-formedness of the phases of a transaction, as a boolean over its six phase fields *)
+  Definition wfb (i v c a ab : option ph) (noprops : bool) : bool :=
+    imp (some v) (is_ph i Done) &&
+    imp (some c) (is_ph v Done) &&
+    imp (some a) (is_ph c Done) &&
+    imp (some ab) (is_none c && is_none a) &&
+    imp noprops (negb (is_ph i Done)).
   Definition tx_wf (T : txn) : Prop :=
-    (is_Some (t_validate T) -> t_init T = Some Done) /\
-    (is_Some (t_commit T) -> t_validate T = Some Done) /\
-    (is_Some (t_apply T) -> t_commit T = Some Done) /\
-    (is_Some (t_abort T) -> t_commit T = None /\ t_apply T = None) /\
-    (t_props T = None -> t_validate T = None).
+    wfb (t_init T) (t_validate T) (t_commit T) (t_apply T) (t_abort T) (is_none (t_props T)) = true.
 
   (* proposal phases are backed by the phases of the transaction with the same index *)
   Definition backed (tm : gmap N txn) (k : N * N) (P : prop) : Prop :=
@@ -58,11 +65,25 @@ Section Phases.
     j_back : forall k P, props w !! k = Some P -> backed (txs w) k P }.
 
   (** * Phases of a transaction only grow *)
+  Definition growsb (v c ab a v' c' ab' a' : option ph) : bool :=
+    imp (some v) (some v') && imp (some c) (some c') && imp (some ab) (some ab') && imp (some a) (some a').
   Definition tx_grows (T T' : txn) : Prop :=
+    growsb (t_validate T) (t_commit T) (t_abort T) (t_apply T) (t_validate T') (t_commit T') (t_abort T') (t_apply T') = true.
+
+  Lemma some_is_Some {A} (o : option A) : some o = true <-> is_Some o.
+  Proof. destruct o; cbn; split; intros H; try discriminate; try (eexists; reflexivity); try reflexivity. destruct H; discriminate. Qed.
+
+  Lemma tx_grows_spec (T T' : txn) : tx_grows T T' ->
     (is_Some (t_validate T) -> is_Some (t_validate T')) /\
     (is_Some (t_commit T) -> is_Some (t_commit T')) /\
     (is_Some (t_abort T) -> is_Some (t_abort T')) /\
     (is_Some (t_apply T) -> is_Some (t_apply T')).
+  Proof.
+    unfold tx_grows, growsb, imp. intros H.
+    repeat (apply andb_prop in H; destruct H as [H ?]).
+    repeat split; intros Hs; apply some_is_Some in Hs; apply some_is_Some;
+      repeat match goal with H : negb ?x || _ = true |- _ => rewrite Hs in H; cbn in H end; assumption.
+  Qed.
 
   Lemma backed_grows tm i T T' k P :
     tm !! i = Some T -> tx_grows T T' -> backed tm k P -> backed (<[i := T']> tm) k P.
@@ -70,7 +91,7 @@ Section Phases.
     intros HT Hg Hb Hs. destruct (Hb Hs) as (T0 & HT0 & H1 & H2 & H3 & H4).
     destruct (decide (i = k.2)) as [->|Hne].
     - rewrite HT in HT0. injection HT0 as <-. exists T'. rewrite lookup_insert.
-      destruct Hg as (G1 & G2 & G3 & G4). repeat split; auto.
+      destruct (tx_grows_spec _ _ Hg) as (G1 & G2 & G3 & G4). repeat split; auto.
     - exists T0. rewrite lookup_insert_ne by exact Hne. repeat split; auto.
   Qed.
 
@@ -174,5 +195,119 @@ Section Phases.
     intros Hb H1 H2 H3 H4 Hs.
     assert (Hs0 : is_Some (p_validate P) \/ is_Some (p_commit P) \/ is_Some (p_abort P) \/ is_Some (p_apply P)) by tauto.
     destruct (Hb Hs0) as (T & HT & G1 & G2 & G3 & G4). exists T. repeat split; auto.
+  Qed.
+
+  (** * The transaction reconciler preserves J on every prefix of its effects *)
+  Lemma chain1 (I : world -> Prop) (w : world) e : I (apply_eff w e) -> chain dev_apply d_empty I w [e].
+  Proof. intros H. cbn. auto. Qed.
+
+  Lemma phase_scan_J (w : world) i (T : txn) tg get start stop on_failed on_all_done :
+    J w -> txs w !! i = Some T ->
+    (forall t p, props w !! (t, i) = Some p -> get p = None -> backed (txs w) (t, i) (start p)) ->
+    (forall p, tx_wf (on_failed p) /\ tx_grows T (on_failed p)) ->
+    (tx_wf on_all_done /\ tx_grows T on_all_done) ->
+    chain dev_apply d_empty J w (fst (phase_scan w i T tg get start stop on_failed on_all_done)).
+  Proof.
+    intros HJ HT Hstart Hfail Hdone. unfold phase_scan.
+    destruct (scan_props w i tg _) as [[u|[t p]]|] eqn:Hscan.
+    - exact I.
+    - apply scan_props_inr in Hscan. destruct Hscan as [Hp Hf].
+      destruct (is_none (get p)) eqn:Hn.
+      + apply chain1. apply J_put_prop; [exact HJ|]. apply Hstart; [exact Hp|]. apply is_none_true. exact Hn.
+      + apply chain1. destruct (Hfail p) as [Hw Hg]. eapply J_put_tx; eauto.
+    - destruct (default false _).
+      + apply chain1. destruct Hdone as [Hw Hg]. eapply J_put_tx; eauto.
+      + exact I.
+  Qed.
+
+  Lemma gate_J (w : world) i (T : txn) tg need next r :
+    J w -> txs w !! i = Some T -> tx_wf next -> tx_grows T next ->
+    chain dev_apply d_empty J w (fst (gate w i T tg need next r)).
+  Proof.
+    intros HJ HT Hw Hg. unfold gate. destruct (all_props w i tg _); [|exact I].
+    destruct (blocked_by_prev w i tg need); [exact I|]. apply chain1. eapply J_put_tx; eauto.
+  Qed.
+
+  Lemma create_props_J (i : N) (l : list (N * prop)) (w0 : world) T' (T : txn) :
+    (forall tp, In tp l -> p_validate tp.2 = None /\ p_commit tp.2 = None /\ p_abort tp.2 = None /\ p_apply tp.2 = None) ->
+    tx_wf T' -> tx_grows T T' ->
+    forall w : world, J w -> txs w !! i = Some T ->
+    chain dev_apply d_empty J w (create_props w0 i l ++ [EPutTx i T']).
+  Proof.
+    intros Hl Hw Hg. induction l as [|[t p] l IH]; intros w HJ HT.
+    - cbn. split; [|exact I]. eapply J_put_tx; eauto.
+    - cbn [create_props flat_map]. fold (create_props w0 i l).
+      destruct (props w0 !! ((t, p).1, i)).
+      + cbn [app]. apply IH; auto. intros tp Htp. apply Hl. right. exact Htp.
+      + cbn [app chain]. destruct (Hl (t, p) (or_introl eq_refl)) as (H1 & H2 & H3 & H4). cbn in H1, H2, H3, H4.
+        assert (HJ' : J (apply_eff w (ECreateProp ((t, p).1, i) (t, p).2))) by (apply J_create_prop; assumption).
+        split; [exact HJ'|]. apply IH; auto.
+        * intros tp Htp. apply Hl. right. exact Htp.
+        * rewrite txs_apply_eff. exact HT.
+  Qed.
+
+  (* goals about tx_wf / tx_grows of an updated record: rewrite the known phase fields, case on the others; the
+     goal is then a closed boolean *)
+  Ltac case_field f T :=
+    first [ match goal with H : f T = _ |- _ => rewrite H in * end
+          | destruct (f T) as [[]|] ].
+  Ltac solve_wf_on T :=
+      (unfold tx_wf, tx_grows in *; cbn [t_init t_validate t_commit t_apply t_abort t_props t_state t_failure t_details set] in *;
+      case_field (@t_init Ch) T; case_field (@t_validate Ch) T; case_field (@t_commit Ch) T;
+      case_field (@t_apply Ch) T; case_field (@t_abort Ch) T;
+      first [ match goal with H : t_props T = _ |- _ => rewrite H in * end | destruct (t_props T) ];
+      cbn in *; try reflexivity; try discriminate).
+
+  Lemma rec_tx_J (w : world) i : J w -> chain dev_apply d_empty J w (fst (rec_tx w i)).
+  Proof.
+    intros HJ. unfold Proto2.rec_tx. destruct (txs w !! i) as [T|] eqn:HT; [|exact I].
+    pose proof (j_tx _ HJ _ _ HT) as Hwf.
+    destruct (t_apply T) as [a|] eqn:Ea.
+    { destruct a; try exact I.
+      apply phase_scan_J; auto.
+      - intros t p Hp Hg. eapply backed_start; eauto using (j_back _ HJ); cbn; intros Hs; auto; try (right; eexists; eassumption).
+      - intros p. split; solve_wf_on T.
+      - split; solve_wf_on T. }
+    destruct (t_abort T) as [ab|] eqn:Eb.
+    { destruct ab; try exact I.
+      apply phase_scan_J; auto.
+      - intros t p Hp Hg. eapply backed_start; eauto using (j_back _ HJ); cbn; intros Hs; auto; try (right; eexists; eassumption).
+      - intros p. split; solve_wf_on T.
+      - split; solve_wf_on T. }
+    destruct (t_commit T) as [c|] eqn:Ec.
+    { destruct c; try exact I.
+      - apply phase_scan_J; auto.
+        + intros t p Hp Hg. eapply backed_start; eauto using (j_back _ HJ); cbn; intros Hs; auto; try (right; eexists; eassumption).
+        + intros p. split; solve_wf_on T.
+        + split; solve_wf_on T.
+      - apply gate_J; auto; solve_wf_on T. }
+    destruct (t_validate T) as [v|] eqn:Ev.
+    { destruct v; try exact I.
+      - apply phase_scan_J; auto.
+        + intros t p Hp Hg. eapply backed_start; eauto using (j_back _ HJ); cbn; intros Hs; auto; try (right; eexists; eassumption).
+        + intros p. split; solve_wf_on T.
+        + split; solve_wf_on T.
+      - apply gate_J; auto; solve_wf_on T. }
+    destruct (t_init T) as [ini|] eqn:Ei.
+    2:{ apply chain1. apply (J_put_tx w i T); auto; solve_wf_on T. }
+    destruct ini; try exact I.
+    - destruct (match txs w !! (i - 1) with Some P => _ | None => false end); [exact I|].
+      destruct (t_props T) as [tg'|] eqn:Ep.
+      + destruct (all_props w i tg' _) as [[|]|]; try exact I.
+        apply chain1. apply (J_put_tx w i T); auto; solve_wf_on T.
+      + destruct (t_details T) as [chs|ri] eqn:Ed.
+        * cbn [fst]. apply (create_props_J i _ w _ T); auto.
+          -- intros tp Htp. apply in_map_iff in Htp. destruct Htp as (tc & <- & _). cbn. auto.
+          -- solve_wf_on T.
+          -- solve_wf_on T.
+        * destruct (txs w !! ri) as [R|] eqn:HR.
+          -- destruct (t_details R) as [chs|rj].
+             ++ cbn [fst]. apply (create_props_J i _ w _ T); auto.
+                ** intros tp Htp. apply in_map_iff in Htp. destruct Htp as (tc & <- & _). cbn. auto.
+                ** solve_wf_on T.
+                ** solve_wf_on T.
+             ++ apply chain1. apply (J_put_tx w i T); auto; solve_wf_on T.
+          -- apply chain1. apply (J_put_tx w i T); auto; solve_wf_on T.
+    - apply gate_J; auto; solve_wf_on T.
   Qed.
 End Phases.
